@@ -60,7 +60,9 @@ func (cache *CacheLRU) GetTime(key string) (int64, error) {
 
 func (cache *CacheLRU) Flush() {
 	clear(cache.keys)
+	// clear() on a slice only zeroes its elements; drop them so the heap is really empty.
 	clear(cache.entries)
+	cache.entries = cache.entries[:0]
 }
 
 func (cache *CacheLRU) Len() int {
